@@ -11,7 +11,7 @@ from common import L, ModelRaise, exc_kind
 RULE = ("convex solids from gen.convex_solid (C01 generator: all kinds, rigid motion, offset <=10 diameters, scale "
         "1e-3..1e3) + every tabulated solid (random placement) + special solids (boxes, cubes, tangential/non-tangential "
         "prisms, antiprisms, pyramids, dipyramids, non-cospherical dipyramid) + the same special solids / polygons under exact "
-        "power-of-two scalings 2^-14..2^14 (solids) and 2^-26..2^26 (polygons) + non-convex polyhedra (dented / edge-flipped "
+        "power-of-two scalings 2^-14..2^14 (solids) and 2^-30..2^30 (polygons, sizes 1e-9..1e9, half of them tilted and off-origin) + non-convex polyhedra (dented / edge-flipped "
         "simplicial hulls) for the vertex-based balls; polygons from gen.polygon2d (C04 generator) + regular n-gons, "
         "rectangles, squares, kites, rhombi, isosceles trapezoids, cyclic and tangential random polygons, triangles, "
         "embedded in random planes, scaled 1e-3..1e3, both orientations / explicit / opposing normal; circles, ellipses, "
@@ -498,6 +498,16 @@ def check_circum(ctx, case, cls, attr, p, verts, normal, Ls, d):
             offp2 = abs(float(fr[3] @ (c - fr[0])))
             if offp2 > (1e-8 * Ls if exists else 2e-4 * max(d, d * d)):
                 ctx.fail(sig0 + ":in-plane", "circumcircle centre is not in the polygon's plane", case, [offp, offp2])
+        if (not three) and exists and c3 is not None and r_or is not None and np.isfinite(r_or):
+            # accuracy relative to the polygon's OWN size (0897fc7: with a unit plane row in the lstsq system the
+            # conditioning grew like 1/size); reference: circle fitted in coordinates relative to the vertex mean
+            acc_tol = 1e-9 * d + 1e-13 * float(np.linalg.norm(verts.mean(axis=0)))
+            err = max(abs(r - r_or), float(np.linalg.norm(c - c3)))
+            ctx.count("circumcircle:accuracy-vs-own-size:" + ("ok" if err <= acc_tol else "LOST"))
+            if err > acc_tol:
+                ctx.fail(sig0 + ":accuracy-degrades-at-small-scale",
+                         "circumcircle centre/radius are not accurate to 1e-9 relative to the polygon's own size", case,
+                         {"error/size": err / d, "size": d, "r": r, "r_ref": r_or, "c": c, "c_ref": c3})
         if exists and len(verts) > thresh and c3 is not None:
             if not (ctx.close_enough(r, r_or, Ls, 1e-7) and ctx.close_enough(c, c3, Ls, 1e-7)):
                 ctx.fail(sig0 + ":value", "circum-ball differs from the independently fitted one", case,
@@ -1302,8 +1312,13 @@ def make_polygon_case(rng, ctx, mode):
         a2 = float(np.sum(p2[:, 0] * np.roll(p2[:, 1], -1) - np.roll(p2[:, 0], -1) * p2[:, 1]))
         if a2 < 0:
             p2 = p2[::-1].copy()
-        k = int(rng.integers(-26, 27))
+        u = rng.random()                         # sizes 1e-9 .. 1e9, the extremes over-represented
+        k = int(rng.integers(-30, -19)) if u < 0.4 else int(rng.integers(20, 31)) if u < 0.6 else int(rng.integers(-30, 31))
         v = np.c_[p2, np.zeros(len(p2))] * (2.0 ** k)
+        if rng.random() < 0.7:
+            # also in a tilted plane and a few sizes away from the origin (the scaling stays an exact power of two)
+            import rowan
+            v = v @ rowan.to_matrix(rowan.normalize(rng.normal(size=4))).T + rng.uniform(-3, 3, size=3) * (2.0 ** k)
         return {"family": "polygon", "vertices": v.tolist(), "normal": None, "cls": "Polygon", "seed": seed,
                 "info": {"kind": "xscale:" + kind, "scale": 2.0 ** k, "orient": "default", "plane": "xy", "n": len(v)}}
     if mode == "c04":
@@ -1541,6 +1556,12 @@ def witnesses():
         out.append({"family": "polygon", "vertices": sq_off, "normal": None, "cls": "Polygon", "fail_first": k,
                     "info": {"kind": "witness:forced-%d-failures" % k}, "seed": 40 + k})
     out.append({"family": "curved", "kind": "Circle", "axes": [1.5], "center": [1, 2, 0], "info": {"tie": "witness"}})
+    # repaired in 0897fc7: circumcircle of a 3e-9-sized triangle was accurate to 2.7e-7 only (unit plane row in the lstsq)
+    tri = 3e-9 * np.array([[-0.04181063, 1.23054366, 0.87019993], [0.29206614, 1.46955829, 0.90975153],
+                           [0.36682145, 1.5067784, 0.89943723]])
+    for cls_ in ("Polygon", "ConvexPolygon"):
+        out.append({"family": "polygon", "vertices": tri.tolist(), "normal": None, "cls": cls_,
+                    "info": {"kind": "witness:tiny-triangle-circumcircle"}, "seed": 60})
     # repaired in da3be45 (must be caught if it returns): `miniball` returns the circumsphere of one rectangular side face
     # of this rotated triangular prism (two vertices 1.58 r away) when Python's global `random` is seeded with 14;
     # coxeter used to pass it on, now `_is_minimal_bounding_ball` rejects it and the loop retries
